@@ -23,14 +23,15 @@ type ioCase struct {
 	launch       string
 	pproto, psec string
 	padv         bool
+	pnoauto      bool // the plugin ignores AutoMTLS (drops PLUGIN_CLIENT_CERT before Serve)
 }
 
 func (c *ioCase) line() string {
-	return fmt.Sprintf("C14 allowed=%s sec=%s mux=%s launch=%s pproto=%s psec=%s padv=%s", c.allowed, c.sec, b01(c.mux), c.launch, c.pproto, c.psec, b01(c.padv))
+	return fmt.Sprintf("C14 allowed=%s sec=%s mux=%s launch=%s pproto=%s psec=%s padv=%s pnoauto=%s", c.allowed, c.sec, b01(c.mux), c.launch, c.pproto, c.psec, b01(c.padv), b01(c.pnoauto))
 }
 
 func ioCaseFromLine(m map[string]string) *ioCase {
-	return &ioCase{m["allowed"], m["sec"], m["mux"] == "1", m["launch"], m["pproto"], m["psec"], m["padv"] == "1"}
+	return &ioCase{m["allowed"], m["sec"], m["mux"] == "1", m["launch"], m["pproto"], m["psec"], m["padv"] == "1", m["pnoauto"] == "1"}
 }
 
 var c14Cert, c14Key string
@@ -41,7 +42,7 @@ func runIoCase(c *ioCase) (impl, pred string) {
 	base := filepath.Join(work, fmt.Sprintf("c14-%d-%d", os.Getpid(), atomic.AddInt64(&c14Seq, 1)))
 	os.MkdirAll(base, 0o755)
 	defer os.RemoveAll(base)
-	kc := kitServeCfg{Sets: map[string]string{"3": c.pproto}, GRPCServer: c.pproto == "grpc", NoMuxAdvert: !c.padv}
+	kc := kitServeCfg{Sets: map[string]string{"3": c.pproto}, GRPCServer: c.pproto == "grpc", NoMuxAdvert: !c.padv, NoAutoMTLS: c.pnoauto}
 	if c.psec == "static" {
 		kc.TLS, kc.CertPEM, kc.KeyPEM = "static", c14Cert, c14Key
 	}
@@ -96,6 +97,11 @@ func runIoCase(c *ioCase) (impl, pred string) {
 	}
 	client := plugin.NewClient(cfg)
 	pred = "ok"
+	// Transport security the host asked for and that applies to this launch (Reattach documents that
+	// AutoMTLS does not apply), and whether the plugin's listener is plaintext — both known from the
+	// configuration alone, independent of anything the library reports.
+	hostWantsTLS := c.sec == "static" || (c.sec == "auto" && c.launch != "reattach")
+	pluginPlaintext := c.psec != "static" && !(c.sec == "auto" && c.launch != "reattach" && !c.pnoauto)
 	var startErr error
 	_, hung, pp := withTimeout(15*time.Second, func() error { _, startErr = client.Start(); return nil })
 	pid := 0
@@ -137,6 +143,10 @@ func runIoCase(c *ioCase) (impl, pred string) {
 		if !okp {
 			pred = "FAIL:protocol-outside-allowed-list"
 		}
+	}
+	// an AutoMTLS host holds a TLS configuration once Start has returned, whatever the plugin answered
+	if c.sec == "auto" && c.launch != "reattach" && client.VerifTLSConfig() == nil && pred == "ok" {
+		pred = "FAIL:automtls-host-without-tls-config-after-start"
 	}
 	// first use: connect, dispense, call, brokered callback, ping; unknown plugin name must be an error
 	var useErr error
@@ -184,6 +194,10 @@ func runIoCase(c *ioCase) (impl, pred string) {
 	case useErr != nil:
 		return "firstuse", pred
 	}
+	if hostWantsTLS && pluginPlaintext {
+		// every step of the session completed against a plaintext listener although the host asked for TLS
+		return "downgraded", "FAIL:silent-downgrade-to-plaintext"
+	}
 	return "works", pred
 }
 
@@ -208,7 +222,9 @@ func init() {
 						for _, pp := range []string{"netrpc", "grpc"} {
 							for _, ps := range []string{"none", "static"} {
 								for _, pa := range []bool{true, false} {
-									all = append(all, &ioCase{a, s, m, l, pp, ps, pa})
+									for _, pn := range []bool{false, true} {
+										all = append(all, &ioCase{a, s, m, l, pp, ps, pa, pn})
+									}
 								}
 							}
 						}
